@@ -1067,3 +1067,75 @@ def glue_theory(what, n_limit, seed):
         shutil.rmtree(work, ignore_errors=True)
     total = n_ok + len(failures)
     return {"evaluations": total, "distinct_nontrivial": n_ok, "samples": samples, "cli_runs": total, "cli_runs_agreeing": n_ok}, failures
+
+
+def glue_parse(langs, seed):
+    """`anthem parse --as KIND --output default FILE` on the texts of the parser corpora against the model: an accepted text
+    must be printed as the model prints the tree the model's parser reads from it, a text the model's parser rejects must be
+    rejected.  Ties the Parse arm of procedures.rs (which parser a `--as` value selects, input from a file, the printer of
+    each kind) to the model.  langs: subset of {"asp", "fol"}.  Returns (stats, failures)."""
+    import sexp as sx
+    work = Path(tempfile.mkdtemp(prefix="glue_pa_", dir=str(VERIF / "work")))
+    failures, samples, n_ok = [], [], 0
+    unesc = lambda t: t.replace("\\n", "\n").replace("\\r", "\r").replace("\\s", " ").replace("\\h", "#")
+    try:
+        items = []   # (kind for --as, model kind, text)
+        if "asp" in langs:
+            for l in (VERIF / "corpus" / "asp_texts.txt").read_text().splitlines():
+                if l.strip() and not l.startswith("#"):
+                    items.append(("program", "asp", unesc(l)))
+        if "fol" in langs:
+            for l in (VERIF / "corpus" / "fol_texts.txt").read_text().splitlines():
+                if l.strip() and not l.startswith("#") and ";;" in l:
+                    k, t = l.split(";;", 1)
+                    k = k.strip()
+                    if k in ("theory", "spec", "ug"):
+                        items.append(({"theory": "theory", "spec": "specification", "ug": "user-guide"}[k], k, unesc(t)))
+        reqs = [sx.dump(["asp_parse", ("s", t)]) if mk == "asp" else sx.dump(["fol_parse", mk, ("s", t)]) for _, mk, t in items]
+        parsed = _ask_driver(reqs)
+        preqs, slots = [], []
+        for (ck, mk, t), a in zip(items, parsed):
+            if not a.startswith("(ok "):
+                slots.append(None)
+                continue
+            body = a[4:-1]
+            if mk == "asp":
+                preqs.append(f"(print_program {body})"); slots.append(1)
+            elif mk == "spec":
+                preqs.append(f"(print_spec {body})"); slots.append(1)
+            elif mk == "ug":
+                preqs.append(f"(print_ug {body})"); slots.append(1)
+            else:
+                fs = sx.parse(body)
+                for f in fs:
+                    preqs.append(f"(print_formula {sx.dump(f)})")
+                slots.append(("theory", len(fs)))
+        printed = _ask_driver(preqs) if preqs else []
+        pi = 0
+        for (ck, mk, t), slot in zip(items, slots):
+            f = work / ("in." + {"program": "lp", "theory": "spec", "specification": "spec", "user-guide": "ug"}[ck])
+            f.write_bytes(t.encode())
+            pr = subprocess.run([str(ANTHEM), "parse", "--as", ck, "--output", "default", str(f)], stdout=subprocess.PIPE, stderr=subprocess.PIPE, timeout=60, env=dict(os.environ, RUST_BACKTRACE="0"))
+            got = pr.stdout.decode("utf-8", "replace")
+            if slot is None:
+                if pr.returncode == 0:
+                    failures.append({"what": f"parse --as {ck}: the model's parser rejects this text, the command line accepted it", "text": t, "command_line": got[:1000]})
+                else:
+                    n_ok += 1
+                continue
+            if slot == 1:
+                want = sx.parse(printed[pi])[1]; pi += 1
+            else:
+                want = "".join(sx.parse(printed[pi + j])[1] + ".\n" for j in range(slot[1])); pi += slot[1]
+            if pr.returncode != 0:
+                failures.append({"what": f"parse --as {ck} rejects a text the model's parser accepts", "text": t, "stderr": pr.stderr.decode("utf-8", "replace")[-300:]})
+            elif got != want:
+                failures.append({"what": f"parse --as {ck}: printed text differs from the model's", "text": t, "command_line": got[:1500], "model": want[:1500]})
+            else:
+                n_ok += 1
+                if len(samples) < 2:
+                    samples.append(f"parse --as {ck} on {len(t)} bytes -> text identical to the model's")
+    finally:
+        shutil.rmtree(work, ignore_errors=True)
+    total = n_ok + len(failures)
+    return {"evaluations": total, "distinct_nontrivial": n_ok, "samples": samples, "cli_runs": total, "cli_runs_agreeing": n_ok}, failures
